@@ -1023,9 +1023,9 @@ class C02(Prop):
                     self._note_failure(res, seen, plan, f[0], f[1], f[2], f[3])
                 res.count("lean_witness_replays")
                 res.note_case(("witness", nm))
-            self._scripts(ctx, res, ctx.scale(170, 2000), 8, seen, lines, outs, spans)
+            self._scripts(ctx, res, ctx.scale(240, 2000), 8, seen, lines, outs, spans)
             ctx.log(f"scripts done: {res.evaluations} calls compared, {len(res.failures)} failing signatures")
-            self._concurrent(ctx, res, ctx.scale(260, 3500), seen, lines, outs, spans, thorough=not ctx.quick)
+            self._concurrent(ctx, res, ctx.scale(340, 3500), seen, lines, outs, spans, thorough=not ctx.quick)
             ctx.log(f"concurrent scenarios done ({len(lines)} trace lines)")
             self._diff(res, lines, outs, spans)
             if not ctx.quick:
